@@ -128,6 +128,14 @@ package sequtil
 //@     invariant forall x int :: len(old(dst)) <= x && x < len(dst) ==>
 //@                 dst[x] == base(digit4(src[(x-len(old(dst)))/4], (x-len(old(dst)))%4))
 
+//@ global codonToAmino
+//@   props C14
+//@   invariant forall x int, y int, z int :: {key3(x, y, z)} 0 <= x && x < 256 && 0 <= y && y < 256 && 0 <= z && z < 256 ==>
+//@               (has(codonToAmino, key3(x, y, z)) <==> (isUpperACGT(x) && isUpperACGT(y) && isUpperACGT(z)))
+//@   invariant forall x int, y int, z int :: {key3(x, y, z)} isUpperACGT(x) && isUpperACGT(y) && isUpperACGT(z) ==>
+//@               codonToAmino[key3(x, y, z)] == ncbi(code(x), code(y), code(z))
+//@   established-by initializer
+
 //@ func Translate
 //@   props C14
 //@   panics len(src) % 3 != 0 || exists j int :: 0 <= j && j < len(src) && !isACGT(src[j])
